@@ -15,9 +15,9 @@ import Mathlib.Data.List.Induction
   negation), BinaryEntropy, Rsi, MyRSI (incl. held values), CenterOfGravity (scale invariance); WelfordOnline (scales with
   the unit, ignores an offset), Vsct (affine invariance, negation), Vst (scale invariance off flat windows, negation), CTI
   (affine invariance, negation, at ℝ), Roc and LaguerreRSI (scale invariance, held values included), TrendFlex / ReFlex (scale
-  invariance and negation, at ℝ), EhlersFisherTransform (affine invariance, any smoothing average).  Still decided only by the
-  exact relational runs of `./check C12`: Alma and CyberCycle homogeneity, Rsi ↦ 100 − Rsi and MyRSI ↦ −MyRSI (proved as
-  C05's negation symmetry), EFT / LaguerreRSI under negation.
+  invariance and negation, at ℝ), EhlersFisherTransform (affine invariance, any smoothing average).  Homogeneity of "every linear filter"
+  (SuperSmoother, LaguerreFilter, RoofingFilter, CyberCycle, Alma) is the case b = 0 of C10's superposition (end of file).
+  Rsi ↦ 100 − Rsi and MyRSI ↦ −MyRSI are C05's negation symmetry.
 -/
 namespace SF.C12
 open SF SF.Spec
@@ -309,3 +309,56 @@ theorem trendFlex_neg (N : Nat) (xs : List ℝ) :
 theorem reFlex_neg (N : Nat) (xs : List ℝ) :
     Spec.reFlex N (xs.map fun x => -x) = (Spec.reFlex N xs).map fun v => -v := Inv4.reFlex_neg N xs
 end SF.C12.Real
+
+/-! ### "every linear filter scales by a": homogeneity of the recursive / weighted linear views, as the special case
+b = 0 of superposition (C10).  Any a (also 0 and negative), every window length, every history. -/
+namespace SF.C12
+open SF SF.Spec
+set_option linter.unusedSectionVars false
+variable {α : Type} [Field α] [LinearOrder α] [IsStrictOrderedRing α] [FloatLike α] [ExactScalar α]
+
+theorem lin_self_scale (a : α) (xs : List α) : Linear.lin a 0 xs xs = xs.map fun x => a * x := by
+  induction xs with
+  | nil => rfl
+  | cons x r ih =>
+    simp only [Linear.lin, List.zipWith_cons_cons, List.map_cons] at ih ⊢
+    rw [ih]; congr 1; ring
+
+theorem olin_self_scale (a : α) (o : Option α) : Linear.olin a 0 o o = o.map fun v => a * v := by
+  cases o with
+  | none => rfl
+  | some v => simp [Linear.olin]
+
+theorem superSmoother_scale [Transc α] (N : Nat) (a : α) (xs : List α) :
+    Spec.superSmoother N (xs.map fun x => a * x) = (Spec.superSmoother N xs).map fun v => a * v := by
+  rw [← lin_self_scale, C10.superSmoother_linear N a 0 xs xs rfl, olin_self_scale]
+
+theorem laguerre_scale [Transc α] (g a : α) (xs : List α) :
+    Spec.laguerreFilter g (xs.map fun x => a * x) = (Spec.laguerreFilter g xs).map fun v => a * v := by
+  rw [← lin_self_scale, C10.laguerre_linear g a 0 xs xs rfl, olin_self_scale]
+
+theorem roofing_scale [Transc α] (N M' : Nat) (a : α) (xs : List α) :
+    Spec.roofing N M' (xs.map fun x => a * x) = (Spec.roofing N M' xs).map fun v => a * v := by
+  rw [← lin_self_scale, C10.roofing_linear N M' a 0 xs xs rfl, olin_self_scale]
+
+theorem cyberCycle_scale [Transc α] (N : Nat) (a : α) (xs : List α) :
+    Spec.cyberCycle N (xs.map fun x => a * x) = (Spec.cyberCycle N xs).map fun v => a * v := by
+  rw [← lin_self_scale, C10.cyberCycle_linear N a 0 xs xs rfl, olin_self_scale]
+
+/-- Alma (under C10's hypothesis that the window's weight sum is non-zero — true for the positive Gaussian weights) -/
+theorem alma_scale [Transc α] (N : Nat) (sigma offset a : α) (xs : List α)
+    (hden : ∀ zs : List α, zs.length = xs.length → zs ≠ [] →
+      sumL ((lastN N zs).zipIdx.map fun (_, j) => gauss (offset * (nat N + nat 1)) (nat N / sigma)
+        (min (zs.length - (lastN N zs).length + j) (N - 1))) ≠ 0) :
+    Spec.alma N sigma offset (xs.map fun x => a * x) = (Spec.alma N sigma offset xs).map fun v => a * v := by
+  rw [← lin_self_scale]
+  change Spec.alma N sigma offset (C10.lin a 0 xs xs) = _
+  rw [C10.alma_linear N sigma offset a 0 xs xs rfl hden]
+  exact olin_self_scale a _
+
+/-- … and the state machines themselves: e.g. the CyberCycle view of a·x (N ≥ 6), through C11 -/
+theorem cyberCycle_view_scale [Transc α] (N : Nat) (hN : 6 ≤ N) (a : α) (xs : List α) :
+    (ccCoreU (α := α) N).outAfter (xs.map fun x => a * x) = .ok ((Spec.cyberCycle N xs).map fun v => a * v) := by
+  rw [C11.cyberCycle_eq N hN, cyberCycle_scale]
+
+end SF.C12
